@@ -6,6 +6,7 @@ import OpcuaModel.Model.Value
 import OpcuaModel.Model.Json
 import OpcuaModel.Model.Write
 import OpcuaModel.Model.Validate
+import OpcuaModel.Model.Enum
 /-! Line-protocol driver: one JSON object per input line → one JSON object per output line.
     It only *evaluates* the model's definitions; it contains no logic of its own beyond decoding. -/
 open Lean Opcua Opcua.IO
@@ -504,6 +505,19 @@ def opValidateValues (j : Json) : Except String Json := do
   | .error (.invalid ns) => return Json.mkObj [("err", "ValidationError"), ("kind", "invalid"),
       ("names", Json.arr (ns.map fun n => Json.str (ofStr n)).toArray)]
 
+/-! ### enumeration op (C17) -/
+def enodeOf (j : Json) : Except String ENode := do
+  let value ← (do if has j "value" then return some (← valOf (← j.getObjVal? "value")) else return none)
+  return ⟨← getNat j "id", ← getStr j "cls", ← getStr j "browse", optNatOf (j.getObjValD "dt"), value⟩
+
+def opEnumTransform (j : Json) : Except String Json := do
+  let nodes ← (← getArr j "nodes").toList.mapM enodeOf
+  let refs ← (← getArr j "refs").toList.mapM tripleOf
+  match transformEnums nodes refs (optNatOf (j.getObjValD "has_property")) with
+  | .error e => return errJson e
+  | .ok out => return Json.mkObj [("values", Json.arr (out.map fun n =>
+      Json.arr #[Json.num (JsonNumber.fromNat n.id), match n.value with | none => Json.null | some v => valToJson v]).toArray)]
+
 def dispatch (j : Json) : Except String Json := do
   let op ← (← j.getObjVal? "op").getStr?
   match op with
@@ -530,6 +544,7 @@ def dispatch (j : Json) : Except String Json := do
   | "closed.validate" => opClosed j
   | "browse.lookup" => opLookup j
   | "values.validate" => opValidateValues j
+  | "enum.transform" => opEnumTransform j
   | "ping" => return Json.mkObj [("pong", Json.bool true)]
   | _ => throw s!"unknown op {op}"
 
